@@ -98,7 +98,10 @@ func run(c *vf.Ctx) {
 	c.Require("roundtrips_binary", c.Pick(40000, 800000))
 	c.Require("roundtrips_json", c.Pick(30000, 600000))
 	c.Require("stream_readbacks", c.Pick(20000, 400000))
-	c.Require("ds_roundtrips", c.Pick(800, 16000))
+	c.Require("ds_roundtrips", c.Pick(1500, 30000))
+	c.Require("ds_roundtrips_with_two_or_more_entries", c.Pick(800, 16000))
+	c.Require("ds_dirty_destination_decodes", c.Pick(1000, 20000))
+	c.Require("ds_instances", 14)
 	c.Require("determinism_reencodings_with_maps", c.Pick(50000, 1000000))
 	c.Require("dirty_destination_decodes", c.Pick(30000, 600000))
 	c.Require("nontrivial", c.Pick(500, 8000))
@@ -107,6 +110,12 @@ func run(c *vf.Ctx) {
 	c.Require("toplevel_with_type_settings_cases", c.Pick(20000, 400000))
 	c.Require("arena_backed_custom_values_encoded", c.Pick(2000, 20000))
 	c.Require("arena_backed_custom_map_keys_encoded", c.Pick(500, 5000))
+	for _, w := range []string{"lp8", "lp16", "lp32"} {
+		c.Require("boundary_length_cases/"+w, 40)
+	}
+	c.Require("boundary_uint256_cases", 80)
+	c.Require("boundary_time_cases", 100)
+	c.Require("boundary_values", 200)
 	c.Require("feature_pairs", 90)
 	c.Require("stream_cases", 300)
 	c.Require("stream_sequences", c.Pick(12000, 240000))
@@ -130,12 +139,11 @@ func replay(c *vf.Ctx) {
 	st := newStats()
 	switch r.Part {
 	case "serix":
-		var u *sergen.Universe
-		if r.Static {
-			u = sergen.NewStatic()
-		} else {
-			u = sergen.NewDynamic(r.USeed)
+		useed := r.USeed
+		if r.Static && useed >= 0 {
+			useed = -1
 		}
+		u := sergen.ByID(useed)
 		s := u.Shapes[r.ShapeIdx]
 		if r.ValIdx < 0 { // the whole shape (recorded when a child process died)
 			nv := 40
@@ -145,7 +153,7 @@ func replay(c *vf.Ctx) {
 			exercise(st, u, r.ShapeIdx, s, nv)
 			break
 		}
-		vals := sergen.Values(s, valRng(r.USeed, r.ShapeIdx), r.ValIdx+1)
+		vals := sergen.ValuesOf(u, s, valRng(r.USeed, r.ShapeIdx), r.ValIdx+1)
 		runCase(st, u, r.ShapeIdx, s, vals[r.ValIdx], r.ValIdx, r.Validation, true)
 	case "stream":
 		streamCase(st, r.Pair, r.Writer, r.Reader, r.PSeed)
@@ -163,6 +171,8 @@ func child(c *vf.Ctx) {
 	switch c.Child {
 	case "serix":
 		serixChild(c)
+	case "serix-boundary":
+		serixBoundaryChild(c)
 	case "serix-static":
 		serixStaticChild(c)
 	case "serix-isolate":
